@@ -27,7 +27,7 @@ NonDegenerate(a, b, c) == Cross(Sub(b, a), Sub(c, a)) # <<0, 0, 0>>
 
 (* The seven branches, in the order of the code.  Returns the region taken and the barycentric
    numerators over a common positive denominator. *)
-Region(p, a, b, c) ==
+RegionM(p, a, b, c, m) ==
   LET ab == Sub(b, a)  ac == Sub(c, a)  ap == Sub(p, a)
       d1 == Dot(ab, ap)  d2 == Dot(ac, ap)
       bp == Sub(p, b)
@@ -37,16 +37,28 @@ Region(p, a, b, c) ==
       d5 == Dot(ab, cp)  d6 == Dot(ac, cp)
       vb == d5*d2 - d1*d6
       va == d3*d6 - d5*d4
-  IN  IF d1 <= 0 /\ d2 <= 0 THEN [reg |-> "A",  u |-> 1, v |-> 0, w |-> 0, den |-> 1]
-      ELSE IF d3 >= 0 /\ d4 <= d3 THEN [reg |-> "B",  u |-> 0, v |-> 1, w |-> 0, den |-> 1]
-      ELSE IF vc <= 0 /\ d1 >= 0 /\ d3 <= 0
+      G(name, cond) == (m = name) \/ cond       \* the weakened kernel `m` drops exactly this conjunct
+  IN  IF G("A.d1", d1 <= 0) /\ G("A.d2", d2 <= 0) THEN [reg |-> "A",  u |-> 1, v |-> 0, w |-> 0, den |-> 1]
+      ELSE IF G("B.d3", d3 >= 0) /\ G("B.d4", d4 <= d3) THEN [reg |-> "B",  u |-> 0, v |-> 1, w |-> 0, den |-> 1]
+      ELSE IF G("AB.vc", vc <= 0) /\ G("AB.d1", d1 >= 0) /\ G("AB.d3", d3 <= 0)
            THEN [reg |-> "AB", u |-> -d3, v |-> d1, w |-> 0, den |-> d1 - d3]
-      ELSE IF d6 >= 0 /\ d5 <= d6 THEN [reg |-> "C",  u |-> 0, v |-> 0, w |-> 1, den |-> 1]
-      ELSE IF vb <= 0 /\ d2 >= 0 /\ d6 <= 0
+      ELSE IF G("C.d6", d6 >= 0) /\ G("C.d5", d5 <= d6) THEN [reg |-> "C",  u |-> 0, v |-> 0, w |-> 1, den |-> 1]
+      ELSE IF G("AC.vb", vb <= 0) /\ G("AC.d2", d2 >= 0) /\ G("AC.d6", d6 <= 0)
            THEN [reg |-> "AC", u |-> -d6, v |-> 0, w |-> d2, den |-> d2 - d6]
-      ELSE IF va <= 0 /\ (d4 - d3) >= 0 /\ (d5 - d6) >= 0
+      ELSE IF G("BC.va", va <= 0) /\ G("BC.d43", (d4 - d3) >= 0) /\ G("BC.d56", (d5 - d6) >= 0)
            THEN [reg |-> "BC", u |-> 0, v |-> d5 - d6, w |-> d4 - d3, den |-> (d4 - d3) + (d5 - d6)]
       ELSE [reg |-> "IN", u |-> va, v |-> vb, w |-> vc, den |-> va + vb + vc]
+Region(p, a, b, c) == RegionM(p, a, b, c, "none")
+
+(* Every guard conjunct of the kernel, by name.  RegionM(.., m) is the kernel with conjunct m dropped: the seventeen
+   single-conjunct weakenings.  The enumeration of ClosestPointMC is adequate only if it contains, for each of them,
+   a case on which the weakened kernel answers differently (see `kills` in ClosestPointMC). *)
+Conjuncts == {"A.d1", "A.d2", "B.d3", "B.d4", "AB.vc", "AB.d1", "AB.d3", "C.d6", "C.d5",
+              "AC.vb", "AC.d2", "AC.d6", "BC.va", "BC.d43", "BC.d56"}
+\* the answer of a weakened kernel as a point (den may be 0 or negative there: compare cross-multiplied)
+SamePoint(r1, r2) == /\ r1.u * r2.den = r2.u * r1.den /\ r1.v * r2.den = r2.v * r1.den /\ r1.w * r2.den = r2.w * r1.den
+                     /\ (r1.den = 0) = (r2.den = 0)
+Kills(p, a, b, c) == {m \in Conjuncts : ~SamePoint(RegionM(p, a, b, c, m), Region(p, a, b, c))}
 
 Reduce(r) == LET g == Gcd(Gcd(r.u, r.v), Gcd(r.w, r.den))
              IN [reg |-> r.reg, u |-> r.u \div g, v |-> r.v \div g, w |-> r.w \div g, den |-> r.den \div g]
